@@ -2,6 +2,7 @@ package main
 
 import (
 	"fmt"
+	"go/constant"
 	"go/token"
 	"go/types"
 
@@ -402,8 +403,9 @@ func runC20(c *Ctx) {
 	c.Clause("C20.7 the ECN tracker (whose verdict triggers a congestion event) is consulted only for ACKs that advance the largest acknowledged, before that value is updated (the repository's stated precondition)")
 	c.Clause("C20.6 probe credit, which bypasses the congestion check in SendMode, is written only by the timeout / ACK / send / drop paths and is reset by every processed ACK")
 	c.Clause("C20.9 the packet numbers compared by the once-per-window guard come from one packet-number space")
+	c.Clause("C20.10 the multiplicative-decrease factors (renoBeta, beta, betaLastMax) lie strictly between 0 and 1, and every reduction in OnCongestionEvent is the window times such a factor or the cubic's after-loss window (itself the window times beta())")
 	c.NotCovered("the numeric inequalities over event histories")
-	c.NotCovered("cubic curve arithmetic and hybrid slow start")
+	c.NotCovered("cubic curve arithmetic beyond the sign of the decrease factors, and hybrid slow start")
 
 	c.rule("C20.1", func() { c20Growth(c) })
 	c.rule("C20.2", func() { c20Reduction(c) })
@@ -414,6 +416,56 @@ func runC20(c *Ctx) {
 	c.rule("C20.6", func() { c20ProbeCredit(c) })
 	c.rule("C20.7", func() { c20ECNOnlyForAdvancingAcks(c) })
 	c.rule("C20.8", func() { c20PacerElapsedTime(c) })
+	c.rule("C20.10", func() { c20DecreaseFactors(c) })
+}
+
+// constFrac reports whether v is a floating-point constant strictly between 0 and 1.
+func constFrac(v ssa.Value) bool {
+	k, ok := stripConv(v).(*ssa.Const)
+	if !ok || k.Value == nil {
+		return false
+	}
+	f := constant.ToFloat(k.Value)
+	if f.Kind() != constant.Float {
+		return false
+	}
+	return constant.Compare(f, token.GTR, constant.MakeInt64(0)) && constant.Compare(f, token.LSS, constant.MakeInt64(1))
+}
+
+func c20DecreaseFactors(c *Ctx) {
+	const R = "C20.10"
+	for _, n := range []string{"renoBeta", "beta", "betaLastMax"} {
+		k := c.konst(cong, n).(*types.Const)
+		f := constant.ToFloat(k.Val())
+		ok := f.Kind() == constant.Float && constant.Compare(f, token.GTR, constant.MakeInt64(0)) && constant.Compare(f, token.LSS, constant.MakeInt64(1))
+		c.Check(ok, R, "const:0<"+n+"<1", c.P.Pos(k.Pos()), "a backoff factor of 1 or more does not shrink the window on loss; 0 or less collapses it below the minimum before the clamp")
+	}
+	cw := c.fld(cong, "cubicSender", "congestionWindow")
+	oce := c.fn(cong, "cubicSender", "OnCongestionEvent")
+	minCW := c.obj(cong, "cubicSender", "minCongestionWindow")
+	afterLoss := c.obj(cong, "Cubic", "CongestionWindowAfterPacketLoss")
+	betaM := c.obj(cong, "Cubic", "beta")
+	isScaled := func(v ssa.Value, factor func(ssa.Value) bool) bool {
+		b, ok := stripConv(v).(*ssa.BinOp)
+		if !ok || b.Op != token.MUL {
+			return false
+		}
+		return factor(b.X) || factor(b.Y)
+	}
+	n := 0
+	for _, in := range findInstrs(oce, StoresTo(cw)) {
+		st := in.(*ssa.Store)
+		if CallTo(minCW, -1)(st.Val) {
+			continue
+		}
+		n++
+		ok := CallTo(afterLoss, -1)(st.Val) || (isScaled(st.Val, constFrac) && isScaled(st.Val, func(v ssa.Value) bool { return Load(cw)(stripConv(v)) }))
+		c.Check(ok, R, "shape:reduction is window × factor", c.P.InstrPos(in), "on loss the new window is the old one times a factor in (0,1), or the cubic's after-loss window")
+	}
+	c.Floor(R, "reductions in OnCongestionEvent", n, 2)
+	c.returnsAll(R, "shape:CongestionWindowAfterPacketLoss = window × beta()", c.fn(cong, "Cubic", "CongestionWindowAfterPacketLoss"), 0, func(v ssa.Value) bool {
+		return isScaled(v, CallTo(betaM, -1)) && isScaled(v, func(x ssa.Value) bool { _, isP := stripConv(x).(*ssa.Parameter); return isP })
+	}, "the after-loss window is the current window times the N-connection beta")
 }
 
 func c20Growth(c *Ctx) {
